@@ -330,9 +330,12 @@ FINGERPRINTS = {
 
 PIECES = {
     "python": ["x", "yy", "=", "+", "f(a,", "b)", "'s'", "'b c'", '"d e"', "f(a,'b c')", 'g("p q",1)',
-               "zzzzzzzzzzzz", "3.5e-2", "''", "x+'a b'", "d['k v']"],
+               "zzzzzzzzzzzz", "3.5e-2", "''", "x+'a b'", "d['k v']",
+               # '#' inside a string (at and not at the start of a word): no comment starts there
+               "'#s'", 'd["#k"]'],
     "fortran": ["x", "yy", "=", "+", "f(a,", "b)", "'s'", "'b c'", '"d e"', "f(a,'b c')", 'g("p q",1)',
-                "zzzzzzzzzzzz", "3.5d-2", "''", "x//'a b'", "write(*,*)"],
+                "zzzzzzzzzzzz", "3.5d-2", "''", "x//'a b'", "write(*,*)",
+                "'#s'", "log('#r',1)"],
 }
 EXH_WIDTHS = [5, 12, 20]
 EXH_LEVELS = [0, 1]
